@@ -341,7 +341,7 @@ def bulk_cases(tier):
     rnd = random.Random(int(os.environ.get("VERIF_SEED", "1") or 1) * 7919 + 3)
     shapes = ["uniform", "caterpillar", "binary", "hubs"]
     ops = ["sort", "subtree", "to_subtree", "cut_type", "redirect", "redirect-nosort", "cat", "translate", "swc"]
-    for k, n in enumerate(BULK_N):
+    for k, n in enumerate(BULK_N * (1 if tier == "quick" else 3)):
         for shape in (shapes if tier != "quick" else [shapes[(k + rnd.randrange(4)) % 4], "uniform"]):
             yield {"tree": {"bulk": [rnd.randrange(2 ** 31 - 1), n, shape, "lattice"]},
                    "sel": [rnd.randrange(10 ** 6) for _ in range(4)], "ops": rnd.sample(ops, 3 + rnd.randrange(3))}
